@@ -180,6 +180,17 @@ Inductive status :=
   | SSyntax           (* SyntaxError: eval() of a statement *)
   | SUnknown.         (* the world does not say (excluded by theorems; a mismatch in the correspondence) *)
 
+(* the Python exception type of a status ("" = no exception; None = whatever importlib raised) *)
+Definition status_exc (s : status) : option string :=
+  match s with
+  | SOk | SIgnored => Some ""
+  | SDenied | SRelNotFound | SStubAs => Some "ModuleNotFoundError"
+  | SImportErr => Some "ImportError"
+  | SAttrErr => Some "AttributeError"
+  | SSyntax => Some "SyntaxError"
+  | SSysMissing | SUnknown => None
+  end.
+
 Record result := { r_status : status; r_bound : list (string * origin) }.
 Definition res (s : status) (b : list (string * origin)) : result := {| r_status := s; r_bound := b |}.
 Definition res_cons (b : list (string * origin)) (r : result) : result := res (r_status r) (b ++ r_bound r).
